@@ -26,6 +26,7 @@ mutual
     | comment : Ext P .comment .comment
     | pi : Ext P .pi .pi
     | text {s} : Ext P (.text s) (.text s)
+    | entity : Ext P .entity .entity
   inductive ExtL (P : LocalPass) : List Node → List Node → Prop
     | nil : ExtL P [] []
     | cons {c c' cs cs'} : Ext P c c' → ExtL P cs cs' → ExtL P (c :: cs) (c' :: cs')
@@ -40,6 +41,7 @@ theorem rewrite_noise (P : LocalPass) (n : Node) (h : P.noise n = true) : rewrit
   | comment => simp only [rewrite, LocalPass.f]; simp only [LocalPass.noise] at h; simp [h]
   | pi => simp only [rewrite, LocalPass.f]; simp only [LocalPass.noise] at h; simp [h]
   | text s => simp only [rewrite, LocalPass.f]; simp only [LocalPass.noise] at h; simp [h]
+  | entity => simp only [rewrite, LocalPass.f]; simp only [LocalPass.noise] at h; simp [h]
 
 theorem rewriteList_flag (f : Node → List Node) (cs : List Node) (h : headNotText cs = true) (b : Bool) :
     rewriteList f b cs = rewriteList f false cs := by
@@ -54,6 +56,7 @@ theorem rewriteList_flag (f : Node → List Node) (cs : List Node) (h : headNotT
       | elem u t a k => simp [rewriteList]
       | comment => simp [rewriteList]
       | pi => simp [rewriteList]
+      | entity => simp [rewriteList]
 
 theorem Ext.isElem_eq {P : LocalPass} {n n' : Node} (h : Ext P n n') : n.isElem = n'.isElem := by
   cases h <;> rfl
@@ -78,6 +81,7 @@ mutual
     | _, _, .comment => rfl
     | _, _, .pi => rfl
     | _, _, .text => rfl
+    | _, _, .entity => rfl
   theorem rewriteList_ext (P : LocalPass) : ∀ {cs cs' : List Node}, ExtL P cs cs' → ∀ b,
       rewriteList P.f b cs' = rewriteList P.f b cs
     | _, _, .nil, _ => rfl
@@ -91,6 +95,7 @@ mutual
         | false => simp only [rewriteList, rewrite] at h1 ⊢; rw [rewriteList_ext P hl _]
       | comment => cases b <;> simp only [rewriteList, rewrite] <;> rw [rewriteList_ext P hl _]
       | pi => cases b <;> simp only [rewriteList, rewrite] <;> rw [rewriteList_ext P hl _]
+      | entity => cases b <;> simp only [rewriteList, rewrite] <;> rw [rewriteList_ext P hl _]
       | elem hd ha hk =>
         cases b <;> simp only [rewriteList] <;> rw [h1, rewriteList_ext P hl _] <;> simp [isElem]
     | cs, n :: cs', .ins hn hh hl, b => by
@@ -113,6 +118,9 @@ mutual
             simp only [rewriteList, hr, List.nil_append, List.isEmpty_nil, Bool.true_and]
             exact rewriteList_flag _ _ hh _
           | pi =>
+            simp only [rewriteList, hr, List.nil_append, List.isEmpty_nil, Bool.true_and]
+            exact rewriteList_flag _ _ hh _
+          | entity =>
             simp only [rewriteList, hr, List.nil_append, List.isEmpty_nil, Bool.true_and]
             exact rewriteList_flag _ _ hh _
       rw [step, rewriteList_ext P hl false, rewriteList_flag _ _ hcs b]
